@@ -290,6 +290,98 @@ def buffers_job(mode, H=2, W=3):
     return part
 
 
+def buffer_history_job(mode, depth=3):
+    """Every sequence of up to `depth` operations on ONE buffer object (the way merge.py, study tiling and
+    the samplers reuse one scratch buffer), against a reference array: after every step the pixels, the
+    answer of is_completely_masked() and what PyramidIO.write_image does with the buffer (store it, or
+    leave no file) must follow the buffer's current content, not an earlier one."""
+    from toasty.image import Image, ImageMode
+    from toasty.pyramid import PyramidIO, Pos
+
+    part = Part()
+    M = ImageMode[mode]
+    H, W = 2, 3
+    coords = [(y, x) for y in range(H) for x in range(W)]
+    sy, sx = [c[0] for c in coords], [c[1] for c in coords]
+    fmt = FORMATS[mode][0]
+    srcs = {
+        "fill_def": make_src(mode, H, W, [True] * 6, 40),
+        "update_part": make_src(mode, H, W, [True, False, False, True, False, False], 90),
+    }
+    if mode != "RGB":
+        srcs["fill_und"] = make_src(mode, H, W, [False] * 6, 40)
+        srcs["update_und"] = make_src(mode, H, W, [False] * 6, 60)
+    if mode == "F16x3":
+        # an undefined pixel of these histories has all three channels NaN (a pixel with a single NaN channel is
+        # skipped by update but not counted as masked by is_completely_masked; that mixed case is left out)
+        for a in srcs.values():
+            a[np.any(np.isnan(a), axis=2)] = np.nan
+    ops = ["clear"] + sorted(srcs)
+    pos = Pos(1, 0, 1)
+
+    def bad(clause, detail, hist):
+        cfg = {"mode": mode, "one_buffer_history": list(hist), "format": fmt}
+        if clause == "is_completely_masked" and mode in INT_MODES:
+            # the same call as the recorded finding: an all-zero integer buffer is reported as not masked
+            part.violation("buffer/is_completely_masked/mode=%s/indexer=-" % mode, "%r: %s" % (cfg, detail), {"mode": mode, "dst_defined": (False,) * 6})
+            return
+        if clause == "all-undefined-tile-stored" and mode in INT_MODES:
+            part.violation("persistence/all-undefined-tile-stored/mode=%s/format=%s" % (mode, fmt), "%r: %s" % (cfg, detail), {"mode": mode, "format": fmt, "scheme": "L/Y/YX", "history": ["write_undef"]})
+            return
+        part.violation("buffer-history/%s/mode=%s" % (clause, mode), "%r: %s" % (cfg, detail), cfg)
+
+    with scratch("c15h") as d:
+        for n in range(1, depth + 1):
+            for hist in itertools.product(ops, repeat=n):
+                part.case(nontrivial=n > 1)
+                b = M.make_maskable_buffer(H, W)
+                shape, dt = buf_shape(mode, H, W)
+                ref = np.zeros(shape, dtype=dt)
+                if np.dtype(dt).kind == "f":
+                    ref[...] = np.nan
+                root = os.path.join(d, "h")
+                shutil.rmtree(root, ignore_errors=True)
+                pio = PyramidIO(root, default_format=fmt)
+                ok = True
+                try:
+                    b.clear()
+                    for k, op in enumerate(hist):
+                        if op == "clear":
+                            b.clear()
+                            ref = np.zeros(shape, dtype=dt)
+                            if np.dtype(dt).kind == "f":
+                                ref[...] = np.nan
+                        elif op.startswith("fill"):
+                            Image.from_array(srcs[op].copy()).fill_into_maskable_buffer(b, slice(None), slice(None), slice(None), slice(None))
+                            ref = ref_fill(mode, srcs[op], ref, sy, sx, sy, sx)
+                        else:
+                            Image.from_array(srcs[op].copy()).update_into_maskable_buffer(b, slice(None), slice(None), slice(None), slice(None))
+                            ref = ref_update(mode, srcs[op], ref, sy, sx, sy, sx)
+                        h = hist[: k + 1]
+                        if not same(np.asarray(b.asarray()), ref):
+                            bad("pixels", "after %r the buffer holds %r, reference %r" % (h, np.asarray(b.asarray()).tolist(), ref.tolist()), h)
+                            ok = False
+                            break
+                        want_masked = bool(np.all(undefined_mask(mode, ref, True)))
+                        got_masked = bool(b.is_completely_masked())
+                        if got_masked != want_masked:
+                            bad("is_completely_masked", "after %r is_completely_masked() = %r although %s" % (h, got_masked, "every pixel is undefined" if want_masked else "defined pixels are present"), h)
+                        pio.write_image(pos, b)
+                        exists = os.path.exists(pio.tile_path(pos, makedirs=False))
+                        if exists != (not want_masked):
+                            bad("all-undefined-tile-stored" if exists else "tile-with-defined-pixels-not-stored", "after %r write_image %s" % (h, "left a file for an all-undefined buffer" if exists else "stored nothing"), h)
+                        elif exists:
+                            back = np.asarray(pio.read_image(pos).asarray())
+                            cmp_ref = ref if not (mode == "RGB" and fmt in ("png",)) else ref
+                            if back.shape == cmp_ref.shape and not same(back[::-1] if fmt == "fits" else back, cmp_ref):
+                                bad("stored-tile-differs", "after %r the stored tile differs from the buffer" % (h,), h)
+                except Exception as e:
+                    bad("raises:%s" % type(e).__name__, repr(e), hist)
+        part.count("one_buffer_histories", sum(len(ops) ** n for n in range(1, depth + 1)))
+    part.sample({"mode": mode, "one_buffer_history_alphabet": ops, "depth": depth})
+    return part
+
+
 # --- Part B: persistence histories ----------------------------------------------------------
 
 OPS = ["write_A", "write_B", "write_partial", "write_undef", "write_inf", "read_none", "read_masked", "update_identity", "update_region", "stale_file"]
@@ -574,6 +666,8 @@ def aliasing_job(job):
 
 
 def _job(j):
+    if j[0] == "bufhist":
+        return buffer_history_job(j[1], j[2])
     if j[0] == "aliasing":
         return aliasing_job(j[1:])
     if j[0] == "buffers":
@@ -585,15 +679,17 @@ def run(tier, seed):
     rep = Report(PROP, tier, seed, "model_checking")
     maxdepth = 3 if tier == "quick" else 4
     rep.rule = (
-        "A: mode x indexer kind x all 2^6 source x 2^6 destination defined/undefined patterns (fill, update, clear, is_completely_masked). "
+        "A: mode x indexer kind x all 2^6 source x 2^6 destination defined/undefined patterns (fill, update, clear, is_completely_masked); every sequence of up to %d "
+        "operations {clear, fill defined/undefined, update partly defined/undefined} on ONE buffer object with is_completely_masked and write_image judged after each step. "
         "B: breadth-first search over operation histories (9-op alphabet) to depth %d on a PyramidIO directory per (mode, format, scheme), "
-        "states = distinct reference tile states, deduplicated; transitions = (state, op) steps executed on the real directory" % maxdepth
-    )
+        "states = distinct reference tile states, deduplicated; transitions = (state, op) steps executed on the real directory"
+    ) % (maxdepth, maxdepth)
     rep.assumptions = [
         "format capability table fixed from the formats' definitions: npy all modes; FITS all but F16x3 (and RGB/RGBA); PNG RGB/RGBA only",
         "integer-array (pointwise) indexers are checked for fill only (what the chunked sampler uses); update through them is not a rectangle and is outside the statement",
     ]
     jobs = [("buffers", m) for m in MODES]
+    jobs += [("bufhist", m, 3 if tier == "quick" else 4) for m in MODES]
     if tier == "thorough":
         # all 2^9 x 2^9 patterns on a 3x3 buffer (full and reversed-row indexers)
         jobs += [("buffers", m, 3, 3) for m in MODES]
@@ -617,6 +713,8 @@ def replay(payload):
     r = payload["replay"]
     if r.get("aliasing"):
         p = aliasing_job((r["mode"], r["format"]))
+    elif "one_buffer_history" in r:
+        p = buffer_history_job(r["mode"], max(1, len(r["one_buffer_history"])))
     elif "history" in r:
         p = persistence_job((r["mode"], r["format"], r["scheme"], max(1, len(r["history"])), r.get("explicit_format", False), bool(r.get("prelude"))))
     else:
